@@ -5,6 +5,7 @@ import (
 	"testing"
 
 	"github.com/koron-go/z80/verifharness/eng"
+	"github.com/koron-go/z80/verifharness/ref"
 	"github.com/koron-go/z80/verifharness/stats"
 	"pgregory.net/rapid"
 )
@@ -134,6 +135,51 @@ func TestC14Soup(t *testing.T) {
 			col.Distinct(h)
 			if col.WantSample(h) && len(c.Code) < 30 {
 				col.Sample(h, c)
+			}
+		}
+	})
+}
+
+// TestC14Pending: LD A,I / LD A,R report IFF2 in P/V also while a maskable request is pending and
+// refused (IFF1 = 0, IFF2 = 1 is the state inside an NMI handler, where LD A,I is used to sample IFF2),
+// and R keeps counting fetches on Steps that refuse a request.
+func TestC14Pending(t *testing.T) {
+	col := stats.New("C14")
+	col.Sub = "pending"
+	defer finish(t, col)
+	rig := newLockRig()
+	rapid.Check(t, func(t *rapid.T) {
+		d := drawStep(t, false)
+		for _, op := range []uint8{0x57, 0x5F} {
+			for iff2 := 0; iff2 < 2; iff2++ {
+				for f := 0; f < 256; f += 1 + int(d.ops[1]&3) {
+					st := d.st
+					st.IFF1, st.IFF2, st.F = false, iff2 == 1, uint8(f)
+					rig.init(st, d.memSeed, d.ioSeed, d.fill, d.ioFill)
+					rig.poke(st.PC, 0xED)
+					rig.poke(st.PC+1, op)
+					var data []uint8
+					switch st.IM {
+					case 0:
+						data = []uint8{0xFF}
+					case 2:
+						data = []uint8{d.ops[0] &^ 1}
+					}
+					rig.raise(ref.Request{Data: data})
+					o := rig.step()
+					col.Eval(1)
+					if o.skipped {
+						continue
+					}
+					for _, dc := range o.discs {
+						if dc.Kind == eng.KRefresh || dc.Kind == eng.KFlags || dc.Kind == eng.KState || dc.Kind == eng.KPanic {
+							c := soupCase{St: st, Code: []int{0xED, int(op)}, MemSeed: d.memSeed, IOSeed: d.ioSeed, Fill: d.fill, IOFill: d.ioFill, Steps: 1,
+								Intr: []soupIntr{{AtStep: 0, Data: toInts(data)}}}
+							violation(t, "C14", "soup", c, "LD A,I / LD A,R with a refused request pending", dc.Kind+": "+dc.Msg)
+						}
+					}
+					col.Distinct(stats.Hash(stateHash(&st), uint64(op)))
+				}
 			}
 		}
 	})
